@@ -28,7 +28,8 @@ def cases(draw, tier):
     big = tier != 'quick'
     c = draw(S.curves(12, 60 if not big else 300,
                       families=['mono_dec', 'mono_dec', 'convex', 'convex', 'noise', 'plateau', 'quant', 'steps',
-                                'pwl_dyadic', 'pwl_rational', 'trace', 'trace', 'concave', 'repo', 'outlier']))
+                                'pwl_dyadic', 'pwl_rational', 'trace', 'trace', 'concave', 'repo', 'outlier'],
+                      big_n=160 if not big else 600))
     pts = c['pts']
     n = len(pts)
     simp = draw(st.sampled_from(SIMPLIFIERS))
